@@ -185,8 +185,63 @@ def public_ops(ctx, rng):
         Device._send_command = orig
 
 
+def wire_ids(ctx, rng, debug_logging):
+    """what a DEVICE sees: the real operations through the real `Device._send_command` and LAN layer (V2, virtual-time
+    loop, simulated unit), optionally with DEBUG logging switched on and a handler that formats every record (as an
+    application that logs to a file does).  Consecutive frames on the wire carry ids advancing by exactly one."""
+    import io
+    import logging
+    import simdev
+    import vloop
+    dev = simdev.SimDevice(version=2, device_id=55)
+    start = rng.randrange(0, 600)
+    ops = [rng.choice(["refresh", "apply", "get_capabilities", "toggle_display", "refresh"]) for _ in range(rng.randrange(3, 8))]
+    res = {}
+
+    async def scenario(loop, net):
+        net.add_tcp("1.2.3.4", 6444, dev)
+        ac = AC(ip="1.2.3.4", port=6444, device_id=55)
+        C.Command._message_id = start
+        for op in ops:
+            try:
+                await getattr(ac, op)()
+            except Exception as e:  # noqa
+                res["exc"] = f"{op}: {type(e).__name__}"
+    prev_disable = logging.root.manager.disable
+    handler = None
+    lg = logging.getLogger("msmart")
+    prev_level = lg.level
+    if debug_logging:
+        logging.disable(logging.NOTSET)
+        handler = logging.StreamHandler(io.StringIO())
+        handler.setFormatter(logging.Formatter("%(asctime)s %(name)s %(message)s"))
+        lg.addHandler(handler)
+        lg.setLevel(logging.DEBUG)
+    try:
+        vloop.run(scenario)
+    finally:
+        if handler is not None:
+            lg.removeHandler(handler)
+        lg.setLevel(prev_level)
+        logging.disable(prev_disable)
+    frames = [f for f in dev.frames()]
+    ids = [f[-3] for f in frames if len(f) >= 13]
+    inp = {"ops": ops, "start": start, "debug_logging": debug_logging}
+    stream = "wire_ids_logging" if debug_logging else "wire_ids"
+    if "exc" in res:
+        ctx.violate(stream, inp, res["exc"], "operations return", "operation raised")
+    want = [(start + 1 + i) % 256 for i in range(len(ids))]
+    if ids != want:
+        ctx.violate(stream, inp, {"ids": ids[:12]}, {"ids": want[:12]},
+                    "message ids of consecutive frames on the wire do not advance by one modulo 256")
+    ctx.case(stream, key=(tuple(ops), start, debug_logging), sample={**inp, "frames": len(frames)})
+
+
 def run(ctx):
     rng = ctx.rng
+    for _ in range(6 if ctx.tier == "quick" else 60):
+        wire_ids(ctx, rng, False)
+        wire_ids(ctx, rng, True)
     n = 1500 if ctx.tier == "quick" else 40000
     for _ in range(n):
         one(ctx, "cmd_tobytes", rng)
